@@ -1,5 +1,18 @@
+#[cfg(not(all(test, feature = "verif")))]
 use std::thread;
+#[cfg(not(all(test, feature = "verif")))]
 use std::sync::mpsc::
+{
+    self,
+    Sender,
+    Receiver,
+    SendError,
+    RecvError,
+};
+#[cfg(all(test, feature = "verif"))]
+use crate::verif::shim::thread;
+#[cfg(all(test, feature = "verif"))]
+use crate::verif::shim::mpsc::
 {
     self,
     Sender,
